@@ -477,6 +477,7 @@ func checkC20(r *Result) {
 			}
 		}
 		r.check(adds == 1, "MEDIAN-SHAPE", "lib.Median # one sum of two elements", P.Pos(med.Pos()), fmt.Sprintf("%d additions of two elements", adds))
+		checkMedianArithmetic(r, med, tm)
 	}
 	// the serving layer above the cache (median server): the address of a range variable must not outlive its iteration.
 	// The module is built with go 1.21 semantics (one variable per loop), so `m[k] = &v` makes every entry point at the
@@ -561,4 +562,185 @@ func innermostLoopHeaderWithin(fn *ssa.Function, b, h *ssa.BasicBlock) bool {
 		}
 	}
 	return false
+}
+
+// checkMedianArithmetic decides the value lib.Median returns, clause by clause: the copy is filled from the input (not
+// the reverse), the comparator orders the copy ascending, the odd count returns the element at len/2, the even count
+// reads the elements at len/2-1 and len/2, and every success return of the even count is one of the reviewed
+// round-away-from-zero forms, reached only under the sign facts that make that form exact and free of overflow.
+func checkMedianArithmetic(r *Result, med *ssa.Function, tm *termer) {
+	P := r.P
+	const rule = "MEDIAN-SHAPE"
+	if len(med.Params) != 1 {
+		r.broken("lib.Median no longer takes one slice")
+		return
+	}
+	isLen := func(t *Term) bool {
+		return t.Op == "call:builtin:len" && len(t.Args) == 1 && t.Args[0].V == ssa.Value(med.Params[0])
+	}
+	isConst := func(t *Term, c string) bool { return t.Op == "const:"+c }
+	isMid := func(t *Term) bool { // len/2
+		if len(t.Args) != 2 {
+			return false
+		}
+		return (t.Op == "/" && isLen(t.Args[0]) && isConst(t.Args[1], "2")) || (t.Op == ">>" && isLen(t.Args[0]) && isConst(t.Args[1], "1"))
+	}
+	isLow := func(t *Term) bool { // len/2 - 1, which for an even length is (len-1)/2
+		if len(t.Args) != 2 {
+			return false
+		}
+		if t.Op == "-" && isMid(t.Args[0]) && isConst(t.Args[1], "1") {
+			return true
+		}
+		a := t.Args[0]
+		return t.Op == "/" && isConst(t.Args[1], "2") && a.Op == "-" && len(a.Args) == 2 && isLen(a.Args[0]) && isConst(a.Args[1], "1")
+	}
+	isCopy := func(t *Term) bool {
+		for (t.Op == "load" || t.Op == "freevar" || t.Op == "ref") && len(t.Args) == 1 {
+			t = t.Args[0]
+		}
+		return strings.HasPrefix(t.Op, "makeslice:")
+	}
+	var canon func(t *Term) string
+	canon = func(t *Term) string {
+		if t.Op == "index" && len(t.Args) == 2 && isCopy(t.Args[0]) {
+			switch {
+			case isMid(t.Args[1]):
+				return "hi"
+			case isLow(t.Args[1]):
+				return "lo"
+			}
+			return "elem[" + t.Args[1].Brief() + "]"
+		}
+		if strings.HasPrefix(t.Op, "convert:") && len(t.Args) == 1 {
+			return canon(t.Args[0])
+		}
+		if len(t.Args) == 2 {
+			a, b := canon(t.Args[0]), canon(t.Args[1])
+			if (t.Op == "+" || t.Op == "*") && b < a {
+				a, b = b, a
+			}
+			return t.Op + "(" + a + "," + b + ")"
+		}
+		if len(t.Args) == 0 {
+			return t.Op
+		}
+		return t.Brief()
+	}
+	const (
+		formMixed = "+(%(+(hi,lo),const:2),/(+(hi,lo),const:2))" // sum/2 + sum%2, the remainder carrying the sum's sign
+		formPos   = "-(hi,/(-(hi,lo),const:2))"                  // y - (y-x)/2
+		formNeg   = "+(/(-(hi,lo),const:2),lo)"                  // x + (y-x)/2
+	)
+	signOf := func(what string) func(rel *Term) (bool, bool) {
+		return func(rel *Term) (bool, bool) {
+			if len(rel.Args) != 2 {
+				return false, false
+			}
+			a, b := canon(rel.Args[0]), canon(rel.Args[1])
+			switch what {
+			case "loNonPos": // lo <= 0, or its negation 0 < lo
+				if rel.Op == "<=" && a == "lo" && b == "const:0" {
+					return true, true
+				}
+				if rel.Op == "<" && a == "const:0" && b == "lo" {
+					return true, false
+				}
+			case "hiNonNeg": // 0 <= hi, or its negation hi < 0
+				if rel.Op == "<=" && a == "const:0" && b == "hi" {
+					return true, true
+				}
+				if rel.Op == "<" && a == "hi" && b == "const:0" {
+					return true, false
+				}
+			case "hiPos": // 0 < hi, or its negation hi <= 0
+				if rel.Op == "<" && a == "const:0" && b == "hi" {
+					return true, true
+				}
+				if rel.Op == "<=" && a == "hi" && b == "const:0" {
+					return true, false
+				}
+			case "odd": // len%2 == 1, or len%2 == 0
+				if rel.Op == "==" && len(rel.Args[0].Args) == 2 && rel.Args[0].Op == "%" && isLen(rel.Args[0].Args[0]) && isConst(rel.Args[0].Args[1], "2") {
+					if isConst(rel.Args[1], "1") {
+						return true, true
+					}
+					if isConst(rel.Args[1], "0") {
+						return true, false
+					}
+				}
+			}
+			return false, false
+		}
+	}
+	ps := AnalyzePaths(med, []Atom{
+		{Name: "odd", Cond: signOf("odd"), Stable: true},
+		{Name: "loNonPos", Cond: signOf("loNonPos"), Stable: true},
+		{Name: "hiNonNeg", Cond: signOf("hiNonNeg"), Stable: true},
+		{Name: "hiPos", Cond: signOf("hiPos"), Stable: true},
+	})
+	// valuations that no pair of numbers has are not paths of the program
+	feasible := func(v map[string]bool) bool { return !(v["hiPos"] && !v["hiNonNeg"]) }
+	copies, success := 0, 0
+	for _, b := range med.Blocks {
+		for _, in := range b.Instrs {
+			switch x := in.(type) {
+			case *ssa.Call:
+				if bi, ok := x.Call.Value.(*ssa.Builtin); ok && bi.Name() == "copy" {
+					copies++
+					dst, src := tm.Of(x.Call.Args[0]), tm.Of(x.Call.Args[1])
+					r.check(isCopy(dst) && src.V == ssa.Value(med.Params[0]) && len(dst.Args) == 1 && isLen(dst.Args[0]), rule,
+						"lib.Median # the fresh slice of the input's length is filled from the input", P.Pos(x.Pos()), "copy("+dst.Brief()+", "+src.Brief()+")")
+				}
+				if CalleeName(x.Common()) == "sort.Slice" && len(x.Call.Args) == 2 {
+					ok, got := false, "comparator is not a closure of lib.Median"
+					if mc, isMC := x.Call.Args[1].(*ssa.MakeClosure); isMC {
+						if cl, isFn := mc.Fn.(*ssa.Function); isFn && len(cl.Params) == 2 {
+							ctm := NewTermer()
+							n := 0
+							for _, cb := range cl.Blocks {
+								for _, cin := range cb.Instrs {
+									if ret, isRet := cin.(*ssa.Return); isRet && len(ret.Results) == 1 {
+										n++
+										t := ctm.Of(ret.Results[0])
+										got = t.String()
+										elem := func(e *Term, p *ssa.Parameter) bool {
+											return e.Op == "index" && len(e.Args) == 2 && e.Args[1].V == ssa.Value(p) && (isCopy(e.Args[0]) || e.Args[0].Contains("free:"))
+										}
+										ok = n == 1 && (t.Op == "<" || t.Op == "<=") && len(t.Args) == 2 && elem(t.Args[0], cl.Params[0]) && elem(t.Args[1], cl.Params[1])
+									}
+								}
+							}
+						}
+					}
+					r.check(ok, rule, "lib.Median # the comparator orders element i before element j when it is smaller", P.Pos(x.Pos()), got)
+				}
+			case *ssa.Return:
+				if len(x.Results) != 2 || DefinitelyFails(x) {
+					continue
+				}
+				success++
+				form := canon(tm.Of(x.Results[0]))
+				var need func(v map[string]bool) bool
+				switch form {
+				case "hi":
+					need = func(v map[string]bool) bool { return v["odd"] }
+				case formMixed:
+					need = func(v map[string]bool) bool { return !v["odd"] && v["loNonPos"] && v["hiNonNeg"] }
+				case formPos: // exact when both are positive: lo > 0 and the slice is sorted
+					need = func(v map[string]bool) bool { return !v["odd"] && !v["loNonPos"] }
+				case formNeg: // exact when both are at most zero: hi <= 0 and the slice is sorted
+					need = func(v map[string]bool) bool { return !v["odd"] && (!v["hiPos"] || !v["hiNonNeg"]) }
+				}
+				if need == nil {
+					r.check(false, rule, "lib.Median # every value returned is the middle element or a reviewed mean form", P.Pos(x.Pos()), "returned: "+form)
+					continue
+				}
+				bad := ps.Require(x, func(v map[string]bool) bool { return !feasible(v) || need(v) })
+				r.check(len(bad) == 0, rule, "lib.Median # every value returned is the middle element or a reviewed mean form", P.Pos(x.Pos()),
+					fmt.Sprintf("returned %s under %v", form, bad))
+			}
+		}
+	}
+	r.check(copies == 1 && success > 0, rule, "lib.Median # one copy, and value returns to decide", P.Pos(med.Pos()), fmt.Sprintf("%d copies, %d value returns", copies, success))
 }
